@@ -590,14 +590,14 @@ Lemma follow_example :
      VIdPath (calc_id wfr new) (wA ++ [WS; calc_id wfr new]); VJson new; VJson new; VJson new].
 Proof. vm_compute. reflexivity. Qed.
 
-(* a shallow copy taken before the state point was ever accessed does not follow the re-key *)
-Lemma early_copy_witness :
+(* a shallow copy taken before the state point was ever accessed follows the re-key as well (fix 0894ce6) *)
+Lemma early_copy_example :
   let old := JObj [(kA, JInt 0)] in let new := JObj [(kA, JInt 1)] in
   run wfr w0 0 [ONewSession wA; OOpenSp 0 old; OInit 0 false; ONewSession wA; OOpenId 1 (calc_id wfr old);
-                OCopy 1; OEdit 1 [] (ESetKey kA (JInt 1)); OIdPath 1; OIdPath 2]
+                OCopy 1; OEdit 1 [] (ESetKey kA (JInt 1)); OIdPath 1; OIdPath 2; OSp 2; OCached 2]
   = [VUnit; VStr (calc_id wfr old); VUnit; VUnit; VStr (calc_id wfr old); VStr (calc_id wfr old); VUnit;
      VIdPath (calc_id wfr new) (wA ++ [WS; calc_id wfr new]);
-     VIdPath (calc_id wfr old) (wA ++ [WS; calc_id wfr old])].
+     VIdPath (calc_id wfr new) (wA ++ [WS; calc_id wfr new]); VJson new; VJson new].
 Proof. vm_compute. reflexivity. Qed.
 
 (* whole assignment of a value that compares == in Python is dropped: id, file and statepoint() stay *)
@@ -624,3 +624,34 @@ Fixpoint exec (fr : fl -> str) (w : world) (q : nat) (ops : list op) : world :=
   | [] => w
   | o :: r => let '(w1, q1, _) := step fr w q o in exec fr w1 q1 r
   end.
+
+(* copy.copy at ANY time: the copy shares the original's state point cell and is registered in its _jobs, so the
+   "every handle in _jobs" clauses of rekey_ok apply to it *)
+Section Copy.
+  Variable frepr : fl -> str.
+
+  Lemma copy_shares_cell : forall w h w' hj,
+    (h < length (w_hs w))%nat -> copy_handle frepr w h = (w', inl hj) ->
+    exists ci, h_cell (getH w' h) = Some ci /\ h_cell (getH w' hj) = Some ci /\
+               h_id (getH w' hj) = h_id (getH w' h) /\ h_s (getH w' hj) = h_s (getH w' h) /\
+               (ci < length (w_cs w') -> In hj (c_jobs (getC w' ci))).
+  Proof.
+    intros w h w' hj Hlt H. unfold copy_handle in H.
+    destruct (sp_access frepr w h) as [w1 [ci|e]] eqn:E; [|discriminate].
+    inversion H; subst. clear H.
+    destruct (sp_access_cell frepr w h w1 ci Hlt E) as [Hc _].
+    assert (Hlen : length (w_hs w1) = length (w_hs w)).
+    { pose proof (sp_access_len frepr w h) as Hl. rewrite E in Hl. exact Hl. }
+    exists ci.
+    assert (Hh : getH (add_job (set_HD (add_H w1 (getH w1 h)) (length (w_hs w1)) (getHD w1 h)) ci (length (w_hs w1))) h
+                 = getH w1 h).
+    { unfold getH, add_job, set_C, set_HD, add_H. simpl. apply app_nth1. lia. }
+    assert (Hj : getH (add_job (set_HD (add_H w1 (getH w1 h)) (length (w_hs w1)) (getHD w1 h)) ci (length (w_hs w1)))
+                      (length (w_hs w1)) = getH w1 h).
+    { unfold getH at 1, add_job, set_C, set_HD, add_H. simpl. apply nth_app_new. }
+    rewrite Hh, Hj. repeat split; auto.
+    intro Hci. unfold add_job, getC, set_C in *. simpl in *. rewrite length_set_nth in Hci.
+    rewrite nth_set_nth_same by exact Hci. simpl.
+    apply in_or_app. right. simpl. auto.
+  Qed.
+End Copy.
